@@ -269,6 +269,15 @@ class Run:
         except Exception as ex:  # noqa: BLE001
             return [1, sh.ERR.get(type(ex).__name__, 10)]
 
+    def nrows(self):
+        """Event rows the back end holds, owned by a listed bucket or not (white box: the tables)."""
+        if self.backend == "memory":
+            return sum(len(v) for v in self.st.db.values())
+        if self.backend == "sqlite":
+            return self.st.conn.execute("SELECT count(*) FROM events").fetchone()[0]
+        from aw_datastore.storages.peewee import EventModel
+        return EventModel.select().count()
+
     def dump(self, univ):
         out = []
         for b in univ:
@@ -363,7 +372,7 @@ def run_history(backend, sym_ops, univ, tmpdir, n):
             for v in views:
                 seen.update(sh.live_ids(v))
             ops.append(op)
-            steps.append([res, run.cache(), run.listing()] + views)
+            steps.append([res, run.cache(), run.listing(), run.nrows()] + views)
         return {"ops": ops, "steps": steps}
     finally:
         run.close()
@@ -413,7 +422,7 @@ def run_impl_batch(histories, procs=None):
 
 
 def canon_model_step(step):
-    res, cache, listing, views = step[0], step[1], step[2], step[3:]
+    res, cache, listing, nrows, views = step[0], step[1], step[2], step[3], step[4:]
     out = []
     for v in views:
         if v == []:
@@ -421,7 +430,7 @@ def canon_model_step(step):
         else:
             m, evs = v[0]
             out.append([[m, sorted(evs, key=lambda w: (w[0], w[1:]))]])
-    return [res, cache, listing] + out
+    return [res, cache, listing, nrows] + out
 
 
 def run_model_batch(runs):
@@ -477,11 +486,16 @@ class Oracle:
         return None
 
     def step(self, op, res, before, after):
-        """before/after = [cache, listing, views...]; returns None, "skip" (call outside the
+        """before/after = [cache, listing, nrows, views...]; returns None, "skip" (call outside the
         property's quantifier: reference resynchronised) or a description of the violation."""
         univ = self.univ
-        cache0, listing0, views0 = before[0], before[1], before[2:]
-        cache1, listing1, views1 = after[0], after[1], after[2:]
+        cache0, listing0, views0 = before[0], before[1], before[3:]
+        cache1, listing1, views1 = after[0], after[1], after[3:]
+        if set(x[0] for x in (listing1[1][1] if listing1[0] == 0 else [])) <= set(univ):
+            held = sum(len(v[0][1]) for v in views1 if v != [])
+            if after[2] != held:
+                return (f"the back end holds {after[2]} event rows, the listed buckets own {held}: "
+                        "rows of a deleted bucket were left behind")
         code = op[0]
         ok = res[0] == 0
         err = None if ok else sh.ERRNAME.get(res[1], "other")
@@ -533,7 +547,7 @@ class Oracle:
                     return "skip"                       # falsy values: outside the quantifier
                 if not ok and not (self.backend_all_none_raises(vals, err)):
                     return f"update_bucket of an existing bucket raised {err}"
-                if b in self.ref and b not in self.unknown:
+                if b in self.ref:
                     g = self.ref[b]["given"]
                     for idx, v in zip((0, 1, 2, 4, 5), vals):
                         if v is not None:
@@ -874,7 +888,7 @@ def main(argv=None):
         for be in sh.BACKENDS:
             run = r[be]
             orc = Oracle(univ)
-            before = [[], [0, [6, []]]] + [[] for _ in univ]
+            before = [[], [0, [6, []]], 0] + [[] for _ in univ]
             recreated = False
             for j, (op, step) in enumerate(zip(run["ops"], run["steps"])):
                 res, after = step[0], step[1:]
